@@ -775,6 +775,99 @@ def register_loops(reg):
         )
 
 
+def register_invoke_inner(reg):
+    """Behavior._invokeInner: "sub-behaviours started under a block that is abandoned are stopped".
+
+    The generator can end in three ways: the sub-behaviour finishes, the sub-behaviour raises, or the generator is
+    CLOSED while it is suspended in `yield from` (the block it runs under is abandoned by abort/break/continue/return of
+    a handler, or the behavior is stopped).  Closing is modelled at the suspension point: the delegated iterator is
+    closed and `GeneratorExit` -- a BaseException that `except Exception` does not catch -- is raised at the `yield from`."""
+
+    REJECT = "scenic.core.dynamics.utils:RejectSimulationException"
+
+    def setup(I, env):
+        eng = I.eng
+        st = MD.current_state(I)
+        log = eng.events
+        n_yields = MD.pick(I, 3, "actions taken by the sub-behaviour before the generator ends (0-2)")
+        how = ["finishes", "raises an error", "rejects the simulation", "closed while suspended"][MD.pick(I, 4, "how the generator ends: sub-behaviour finishes / raises / rejects / generator closed while suspended")]
+        env.vars["_case"] = (n_yields, how)
+        eng.input_syms.append(("case", C.Const(None), repr((n_yields, how))))
+        sub = PObj(repo_class(f"{BH}:Behavior"), tag="sub-behaviour")
+        sub.fields.update(_isRunning=False, _agent=None, _runningIterator=None)
+
+        def step(k):
+            log.append(("sub resumed", st.get("currentBehavior")))
+            if k < n_yields:
+                return ("yield", (f"action {k}",))
+            if how == "finishes":
+                return ("return", None)
+            if how == "raises an error":
+                return ("raise", PExc(bm.AnyException, ("raised by the sub-behaviour",)))
+            if how == "rejects the simulation":
+                return ("raise", PExc(repo_class(REJECT), ("rejected",)))
+            return ("close", None)
+
+        def start(agent):
+            log.append(("start", agent))
+            sub.fields.update(_isRunning=True, _agent=agent, _runningIterator=MD.ScriptedIterator("sub-behaviour generator", step))
+
+        def stop(reason=None):
+            log.append(("stop", sub.fields["_isRunning"]))
+            sub.fields.update(_isRunning=False, _agent=None, _runningIterator=None)
+
+        sub.fields["_start"], sub.fields["_stop"] = BuiltinFn("_start", start), BuiltinFn("_stop", stop)
+        outer = PObj(repo_class(f"{BH}:Behavior"), tag="invoking behavior")
+        st.set("currentBehavior", outer)
+        env.vars.update(self=outer, agent=PObj("Agent", tag="agent"), subs=(sub,))
+        env.vars["_sub"] = sub
+
+    def post(I, env, outcome):
+        eng = I.eng
+        name = "behaviors.Behavior._invokeInner"
+        n_yields, how = env.vars["_case"]
+        sub = env.vars["_sub"]
+        if outcome[0] != "return":
+            eng.check(f"{name}#ensures.generator_created", False)
+            return
+        gen = outcome[1]
+        ended = ("return", None)
+        try:
+            items = I.iterate(gen)
+        except SymRaise as sr:
+            ended = ("raise", sr.exc)
+            items = list(gen.frame.yielded or [])
+        ev = list(eng.events)
+        starts = [e for e in ev if e[0] == "start"]
+        stops = [e for e in ev if e[0] == "stop"]
+        detail = f"the sub-behaviour takes {n_yields} action(s), then: {how}"
+        eng.check(f"{name}#ensures.sub_behaviour_started_once_for_the_agent", len(starts) == 1 and starts[0][1] is env.vars["agent"])
+        eng.check(f"{name}#ensures.every_started_sub_behaviour_stopped_exactly_once_however_the_generator_ends", len(stops) == 1 and stops[0][1] is True and sub.fields["_isRunning"] is False, detail=detail + f"; _stop called {len(stops)} time(s), _isRunning = {sub.fields['_isRunning']}")
+        eng.check(f"{name}#ensures.sub_behaviour_runs_as_the_current_behavior_and_the_invoker_is_current_again_afterwards", all(e[1] is sub for e in ev if e[0] == "sub resumed") and MD.current_state(I).get("currentBehavior") is env.vars["self"], detail=detail)
+        eng.check(f"{name}#ensures.sub_behaviour_resumed_once_per_action_and_once_more_to_end", len([e for e in ev if e[0] == "sub resumed"]) == n_yields + 1)
+        if how == "finishes":
+            eng.check(f"{name}#ensures.normal_completion_when_the_sub_behaviour_finishes", ended[0] == "return")
+            eng.check(f"{name}#ensures.actions_of_the_sub_behaviour_are_passed_through", len(items) == n_yields)
+        elif how == "closed while suspended":
+            eng.check(f"{name}#ensures.close_is_not_swallowed", ended[0] == "raise" and ended[1].cls is GeneratorExit)
+        else:
+            eng.check(f"{name}#ensures.exceptions_of_the_sub_behaviour_propagate", ended[0] == "raise" and ended[1].cls is not GeneratorExit)
+
+    reg.add(
+        C.Contract(
+            f"{BH}:Behavior._invokeInner",
+            params=dict(self=C.Const(None), agent=C.Const(None), subs=C.Const(None)),
+            setup=setup,
+            post=post,
+            replay=replay_invoke_inner,
+            bounded=True,
+            note="bounded: the sub-behaviour takes 0-2 actions before the generator ends; generator close() modelled at the suspension point "
+            "(GeneratorExit raised at the `yield from`); finalisation by the garbage collector itself (WHEN an abandoned generator is closed) stays outside the encoding",
+            properties=("C13",),
+        )
+    )
+
+
 _register_flat = register
 
 
@@ -782,6 +875,7 @@ def register(reg):  # noqa: F811
     _register_flat(reg)
     register_nested(reg)
     register_loops(reg)
+    register_invoke_inner(reg)
 
 
 # ----------------------------------------------------------------------------------------------------
@@ -1135,4 +1229,55 @@ def replay_loop_control(inputs, clause):
         acts = tuple(a[ego][0] if a[ego] else None for a in sim.result.actions)
         if acts != want:
             return f"{what}: the agent's actions are {acts}; documented: {want} (the {key[2]} acts on the handler's own loop)"
+    return None
+
+
+INVOKE_PROGRAM = """
+behavior Leaf():
+    while True:
+        take 1
+behavior Once():
+    take 1
+behavior Boom():
+    take 1
+    raise KeyError("boom")
+behavior Top():
+    take 0
+ego = new Object with behavior Top
+"""
+
+
+def replay_invoke_inner(inputs, clause):
+    """The REAL Behavior._invokeInner generator with real behavior objects, run natively: it is advanced to each
+    suspension point and then closed / exhausted / made to raise; afterwards the sub-behaviour must be stopped."""
+    import scenic
+
+    sc = scenic.scenarioFromString(INVOKE_PROGRAM)
+    scene, _ = sc.generate()
+    ns = sc.dynamicScenario._dummyNamespace
+    agent = scene.objects[0]
+    for cls_name, how in (("Leaf", "close"), ("Once", "finish"), ("Boom", "raise")):
+        for n in (1, 2) if how == "close" else (1,):
+            top, sub = ns["Top"](), ns[cls_name]()
+            gen = top._invokeInner(agent, (sub,))
+            try:
+                for _ in range(n):
+                    next(gen)
+                if how == "close":
+                    gen.close()
+                else:
+                    for _ in range(3):
+                        next(gen)
+            except (StopIteration, KeyError):
+                pass
+            if sub._isRunning or sub._agent is not None:
+                what = {"close": f"closed while suspended after {n} action(s) of the sub-behaviour (the block it runs under is abandoned)", "finish": "exhausted (the sub-behaviour finished)", "raise": "ended by an exception of the sub-behaviour"}[how]
+                again = ""
+                try:
+                    g2 = top._invokeInner(agent, (sub,))
+                    next(g2)
+                    g2.close()
+                except AssertionError:
+                    again = "; invoking the same behavior object again with `do` fails with AssertionError (assert not self._isRunning)"
+                return f"Behavior._invokeInner generator {what}: the sub-behaviour is still marked running (_isRunning = {sub._isRunning}, _agent set: {sub._agent is not None}){again}"
     return None
